@@ -506,35 +506,69 @@ def r4(ctx):
                         '_%s_to_%s is x -> %s*x + %s, reference is %s*x + %s'
                         % (a, b, f[0], f[1], ref[0], ref[1]),
                         key='%s | reference value' % fi.full)
-    # dispatchers: each return under `in_unit in _X ... out_unit in _Y`
-    for getter in ('get_length_conversion', 'get_temperature_conversion',
-                   'get_mass_conversion', 'get_time_conversion'):
+    # dispatchers: the unit arguments are touched only through membership /
+    # equality tests and table look-ups, so the dispatch is decided over the
+    # finite set of unit words by the checker's own finite-domain evaluator
+    # (dsa/finite.py): every (in, out) pair of words of the kind must select
+    # exactly the converter named after the two units, or raise.
+    from .. import finite as FD
+    g, funcs = FD.module_literals(um.tree)
+    defs = {q: f.node for q, f in um.funcs.items() if f.cls is None}
+    word_of = {v: k for k, v in UNIT_WORD.items()}
+    kinds_ = {'get_length_conversion': ('_m', ('_cm', '_mm', '_m', '_in',
+                                               '_ft')),
+              'get_temperature_conversion': ('_degK', ('_degC', '_degF',
+                                                       '_degK')),
+              'get_mass_conversion': ('_kg', ('_lb', '_kg')),
+              'get_time_conversion': ('_sec', ('_sec', '_min', '_hr'))}
+    for getter, (si, lists_) in kinds_.items():
         fi = repo.func('utils', getter)
+        for ln in lists_:
+            if not isinstance(g.get(ln), list) or not g[ln]:
+                raise AnalysisError('utils.%s: word list not a literal' % ln)
         n = 0
-        for r in [x for x in walk_no_nested(fi.node)
-                  if isinstance(x, ast.Return)]:
-            if not isinstance(r.value, ast.Name):
-                continue
-            nm = r.value.id
-            if '_to_' not in nm:
-                continue
-            a, _, b = nm[1:].partition('_to_')
-            conds = {}
-            for test, pol in U.guards(r):
-                cp = U.compare_parts(test)
-                if cp and pol and cp[1] is ast.In:
-                    conds[src(cp[0])] = src(cp[2])
-            ok = conds.get('in_unit') == UNIT_WORD.get(a) and \
-                conds.get('out_unit') == UNIT_WORD.get(b)
-            n += 1
-            ctx.require(ok, 'C17.R4', fi, r,
-                        'dispatcher returns %s under in_unit in %s, out_unit '
-                        'in %s' % (nm, conds.get('in_unit'),
-                                   conds.get('out_unit')),
-                        key='%s | return %s' % (fi.full, nm))
-        if n < 2:
-            raise AnalysisError('%s: dispatcher returns not recognised'
-                                % getter)
+        bad = {}
+        for la in lists_:
+            for lb in lists_:
+                if la == lb:
+                    want = None
+                elif la == si or lb == si:
+                    want = '_%s_to_%s' % (word_of[la], word_of[lb])
+                else:
+                    want = None
+                for wa in g[la]:
+                    for wb in g[lb]:
+                        # a word shared with a list of another kind ('m' is
+                        # metres and minutes) is taken as format_unit reads it
+                        ev = FD.Evaluator(g, funcs, defs={
+                            k: v for k, v in defs.items() if k != getter})
+                        try:
+                            kind, val, node = ev.call_function(
+                                fi.node, [wa, wb])
+                        except FD.Unsupported as e:
+                            raise AnalysisError(
+                                '%s(%r, %r): dispatcher not evaluable over '
+                                'the unit words: %s' % (getter, wa, wb, e))
+                        got = val.name if (kind == 'return' and isinstance(
+                            val, FD.Sym)) else (None if kind == 'raise'
+                                                else repr(val))
+                        n += 1
+                        if got != want:
+                            bad.setdefault((la, lb, got, want), (wa, wb, node))
+        for (la, lb, got, want), (wa, wb, node) in sorted(
+                bad.items(), key=lambda kv: str(kv[0])):
+            anchor = node if hasattr(node, 'lineno') else fi.node
+            ctx.violation('C17.R4', fi, anchor,
+                          'dispatcher selects %s for (%r, %r) [in_unit in %s, '
+                          'out_unit in %s], expected %s'
+                          % (got or 'an error', wa, wb, la, lb,
+                             want or 'an error'),
+                          key='%s | dispatch %s %s' % (fi.full, la, lb))
+        if not bad:
+            ctx.ok('C17.R4', fi, fi.node,
+                   'dispatch table decided over %d unit-word pairs' % n)
+        if n < 4:
+            raise AnalysisError('%s: dispatcher not exercised' % getter)
     # unit word lists are disjoint within a kind (else the first branch wins)
     lists = {}
     for nm, v in um.globals.items():
